@@ -115,6 +115,12 @@ def apply(it, fn, args, dest_ty, term, caller, depth, M):
     tr = fn.get("trait", "") or ""
     some, none, deref_val, seq_of, call_callable, IterV, iter_next = M.some, M.none, M.deref_val, M.seq_of, M.call_callable, M.IterV, M.iter_next
 
+    # ------------------------------------------------------------------ capacity management of std collections: no observable effect, whatever the
+    # abstract value of the collection
+    if name in ("reserve", "reserve_exact", "shrink_to_fit", "shrink_to") and path.startswith(("core::vec::Vec", "core::collections::VecDeque", "core::collections::vec_deque::VecDeque", "core::string::String",
+                                                                                                "core::collections::HashMap", "core::collections::HashSet", "core::collections::hash")):
+        return M.Tup([])
+
     # ------------------------------------------------------------------ operator traits on (references to) primitive integers
     OPS = {"add": "Add", "sub": "Sub", "mul": "Mul", "div": "Div", "rem": "Rem", "bitand": "BitAnd", "bitor": "BitOr", "bitxor": "BitXor", "shl": "Shl", "shr": "Shr"}
     if tr.startswith("std::ops::") or tr.startswith("core::ops::"):
